@@ -56,7 +56,7 @@ type Case struct {
 	Control  bool      `json:"control"` // this case is a control (its failure is not reported)
 	Note     string    `json:"note,omitempty"`
 	// C12: crash points of operations that follow a reorg reaching below the load horizon of the
-	// previously saved tip are judged in a case of their own (known finding D27)
+	// tip persisted by the last completed Clean or Save are judged in a case of their own (known finding D27)
 	CrashPart string `json:"crash_part,omitempty"` // "" = all other crash points, "deep" = only those
 	Trigger   string `json:"trigger,omitempty"`
 	deepCoq   string
